@@ -331,6 +331,15 @@ class Polarity(Interp):
     def eval_BinOp(self, node, env):
         a = self.eval(node.left, env)
         b = self.eval(node.right, env)
+        if isinstance(node.op, ast.Div) and isinstance(node.right, ast.BinOp) and isinstance(node.right.op, ast.Add) and isinstance(a, PV) and is_nonneg(a.sign):
+            # r / (c + r), r >= 0, c > 0 constant: increasing in r (the odds-to-probability map)
+            num = unparse(node.left)
+            for same, other in ((node.right.left, node.right.right), (node.right.right, node.right.left)):
+                if unparse(same) == num:
+                    c = self.eval(other, env)
+                    if isinstance(c, PV) and c.is_const and c.sign == "pos":
+                        self.idioms.append(f"{unparse(node)[:60]}: r / (c + r) with r >= 0, c > 0 is increasing in r")
+                        return mk(dict(a.pol), "nonneg")
         return self.binop(node.op, a, b, node)
 
     def binop(self, op, a: PV, b: PV, node) -> PV:
